@@ -23,18 +23,25 @@ GENS = ["c05_locks"]
 PROOF = "Gallia.Proofs.C05"
 DRIVER = "c05"
 ASSUMPTIONS = [
-    "asyncio.Lock is FIFO, `async with` releases on return, exception and cancellation, and Task.cancel() delivers CancelledError at the await point "
-    "the task is suspended in (the acceptor and the multi-task replay re-check this on every run)",
+    "asyncio.Lock is FIFO, `async with` releases on return, exception and cancellation, a waiter whose Task.cancel() was called is skipped by the lock "
+    "from that moment, and CancelledError is raised at the await point the task is suspended in (the acceptor and the schedule replay re-check "
+    "this on every run)",
+    "cancellation is atomic in the model (delivered at once at the await point); between Task.cancel() and the delivery the real task runs nothing, "
+    "which the replay re-checks; clean-up awaits of a task that is being cancelled (wait_for_ecu restarting the worker in its finally block) are "
+    "outside the model and not cancelled by the tie",
     "the real scheduler is asyncio's: the theorems cover every schedule, the tie observes the schedules provoked by arrival offsets, reply delays, "
-    "write / reconnect faults and cancellation at every instrumented await",
+    "write / read / reconnect faults and cancellation at every instrumented await",
     "a reply is told apart from another caller's by C03's matcher only: a late reply to a byte-identical request, and a late NEGATIVE response to a "
-    "request of the same service, are indistinguishable from the caller's own (no sequence numbers in UDS); `own_reply_or_error` states this as the "
-    "hypothesis `Foreign r b`",
-    "the private, uncalled UDSClient._tester_present(suppress_resp=True) writes without the lock; the regenerated call table proves it has no caller",
+    "request of the same service, are indistinguishable from the caller's own (no sequence numbers in UDS); own_reply_or_error carries this as the "
+    "hypothesis `Foreign r b` (classify_bytes, same_service_negative_not_foreign make the caveat explicit)",
+    "the private, uncalled UDSClient._tester_present(suppress_resp=True) writes without the lock; unlocked_calls_guarded proves from the regenerated "
+    "call table that it has no caller",
     "lock use is lexical (`async with self.mutex`) in client.py, ecu.py, transports/base.py: regenerated from the AST (lock_sites_agree); a mutex reached "
-    "through another name or module is outside the table",
-    "the transport's own mutex (BaseTransport.reconnect / request) is taken inside the client lock only; it is exercised by the tie (real "
-    "BaseTransport.reconnect) but not a second lock in the model",
+    "through another name, by getattr or from another module is outside the table (the dynamic tie still sees its effect)",
+    "the transport's own mutex (BaseTransport.reconnect / request) is only taken inside the client lock; the tie runs the real BaseTransport.reconnect, "
+    "the model has one lock",
+    "the scripted wire keeps its inbox across reconnect() (a late reply may arrive on the new connection): the adversarial choice; the model's network "
+    "may deliver any message at any time anyway",
 ]
 
 TIMEOUT = 1.0
@@ -920,20 +927,25 @@ def search(ctx):
 MANIFEST = {
     "level_text": ("Lean 4 theorems over a multi-task operational semantics (Model/ClientMulti.lean): each task runs the C04 model of request() "
                    "(`requestX`: acquire, every write / read / backoff sleep / reconnect incl. responsePending polls and retries, release) over its "
-                   "own script, reconnect(), or the tester-present worker loop with its start / stop; a scheduler interleaves tasks at await "
-                   "points, delivers messages into ONE shared inbox (a late reply goes to whoever reads next and is classified by C03's parsePdu "
-                   "against the reader's request) and delivers cancellation at any await; asyncio.Lock.release() is modelled without owner check. "
-                   "For every schedule and script: wire_is_serial, worker_only_via_lock, release_only_by_holder, own_reply_or_error (a reply foreign "
-                   "to the caller's request is never its result; it ends the request with IllegalResponse), progress_multi, fifo_fairness, "
-                   "cancel_safe, stop_terminates, plus the 12 theorems of the lock-discipline acceptor, which the operational model refines "
-                   "(events_accepted). Every `async with self.mutex` / acquire / release site and every call into the unlocked client / transport "
-                   "methods of client.py, ecu.py, transports/base.py is regenerated from the AST (lock_sites_agree, unlocked_calls_guarded). Tied "
-                   "to the code by trace validation: the real ECU client with an instrumented lock, wire, sleep and create_task runs 2..5 real "
-                   "tasks (typed and send_raw callers, worker, reconnect) under virtual time; the recorded schedule is replayed through the model "
-                   "step by step and the outcome per caller compared; each caller gets a reply genuine to its request bytes or an error."),
+                   "own script, reconnect(), the tester-present worker loop, or any sequence of such calls with start / stop of the worker "
+                   "(scanner main task, wait_for_ecu); a scheduler interleaves tasks at await points, delivers messages into ONE shared inbox (a "
+                   "late reply goes to whoever reads next and is classified by C03's parsePdu against the reader's own request) and delivers "
+                   "cancellation at any await; asyncio.Lock.release() is modelled without owner check. For every schedule and script: "
+                   "wire_is_serial + events_are_the_wire, wire_op_by_holder, worker_only_via_lock, release_only_by_holder, own_reply_or_error (a reply "
+                   "foreign to the caller's request is never its result; it ends the request with IllegalResponse), progress_multi / "
+                   "handover_on_cancel, fifo_fairness, cancel_safe, stop_terminates, callers_are_bracketed, and the 12 theorems of the lock-discipline "
+                   "acceptor, which the operational model refines (events_accepted); unbracketed_release_breaks_exclusion shows the bracketing is "
+                   "necessary. Every `async with <mutex>` / acquire / release / mutex creation site and every call into the unlocked client / "
+                   "transport methods of client.py, ecu.py, transports/base.py is regenerated from the AST (lock_sites_agree, "
+                   "unlocked_calls_guarded). Tied to the code by schedule replay: the real ECU client with an instrumented lock, wire (one inbox), "
+                   "asyncio.sleep and create_task runs 2..5 real tasks (typed and send_raw callers, worker with start / stop, reconnect(), "
+                   "wait_for_ecu()) under virtual time; every completed await point must be the next step of that task's program in the model "
+                   "(requestX over the results the task observed), every message read must be the head of the model's inbox, the outcome per "
+                   "caller must be the model's; independently of the model each caller must get a reply genuine to its request BYTES or an error, "
+                   "no task may transmit while another task's exchange is open on the wire, and nobody may stay blocked."),
     "level_note": ("Partial: the theorems hold for every schedule, the tie only observes the schedules the harness provokes; cancellation is atomic "
-                   "in the model (delivered at once at the await point). Trusted: Lean kernel, asyncio.Lock / Task.cancel semantics (re-checked by "
-                   "the replay), the harness instrumentation (lock subclass, wire with one inbox, patched asyncio.sleep / create_task)."),
+                   "in the model. Trusted: Lean kernel, asyncio.Lock / Task.cancel semantics (re-checked by the replay), the harness "
+                   "instrumentation (lock subclass, scripted wire with one inbox, patched asyncio.sleep / create_task / stop_cyclic_tester_present)."),
     "technique": ("Lean 4 proof (invariants over a multi-task step function composed from the C04 client model, the C03 matcher and an owner-less "
                   "lock; refinement to the lock-discipline acceptor; AST-regenerated lock-site and call tables) + schedule replay of the real "
                   "client under enumerated scripts, arrival orders and cancellation at every instrumented await"),
